@@ -328,7 +328,7 @@ class UBody:
                         if au == COL:
                             self.err("u4", "%s(n:ROW<-COL)" % name, "a row/column cursor is advanced by a COL quantity: %s(%s)" % (name, self.sh(t["args"][1])), t["span"])
                     # u6: positions inside a row slice are COL quantities
-                    if self.generic_layer and re.match(r"^core::slice::<impl \[T\]>::(get_unchecked|get_unchecked_mut|rotate_left|rotate_right|split_at|split_at_mut|swap)$", fn["path"]):
+                    if self.generic_layer and re.match(r"^core::slice::<impl \[T\]>::(get_unchecked|get_unchecked_mut|rotate_left|rotate_right|split_at|split_at_mut|swap|copy_within)$", fn["path"]):
                         for a in t["args"][1:]:
                             if self.op_unit(a) == ROW:
                                 self.err("u6", "%s(ROW)" % name, "a row slice is indexed / rotated / split by a ROW quantity: %s(%s)" % (name, self.sh(a)), t["span"])
